@@ -8,7 +8,7 @@ from hypothesis import strategies as st
 from ..core import sampled_from  # noqa: E402
 
 from .. import build, meshgen, writers
-from ..core import Failure
+from ..core import Failure, need
 
 ID = "C19"
 RULE = (
@@ -311,7 +311,7 @@ def run_case(case, ctx):
                     FILL = build.consts()[1]
                     sides[side].to_geodataframe(periodic_elements="ignore", engine="geopandas")  # mutated side first
                     gg = sides[other]
-                    gdf = gg.to_geodataframe(periodic_elements="ignore", engine="geopandas")
+                    gdf = need(gg.to_geodataframe(periodic_elements="ignore", engine="geopandas"), "columns", "Grid.to_geodataframe")
                     lon = np.asarray(gg.node_lon.values, float)
                     conn = np.asarray(gg.face_node_connectivity.values).reshape(gg.n_face, -1)
                     got_rows = [sorted({round(float(x), 3) for x, _ in gm.exterior.coords}) for gm in gdf["geometry"]]
